@@ -707,6 +707,32 @@ fn gen_name(spec: &SchemeSpec) -> Vec<u8> {
 }
 
 fn gen_text(spec: &SchemeSpec, pool: &[MValue]) -> Vec<u8> {
+    let mut t = gen_text_core(spec, pool);
+    // leading / trailing blanks and line breaks: positions in error messages are relative to the caller's text
+    match choose_w(&[6, 1, 1, 1, 1], "text.blank") {
+        1 => {
+            let mut x = b"  ".to_vec();
+            x.extend_from_slice(&t);
+            t = x;
+        }
+        2 => {
+            let mut x = b"\n\n".to_vec();
+            x.extend_from_slice(&t);
+            t = x;
+        }
+        3 => t.extend_from_slice(b"   "),
+        4 => {
+            let mut x = b" \t\n ".to_vec();
+            x.extend_from_slice(&t);
+            x.extend_from_slice(b" \n");
+            t = x;
+        }
+        _ => {}
+    }
+    t
+}
+
+fn gen_text_core(spec: &SchemeSpec, pool: &[MValue]) -> Vec<u8> {
     let good = wgen::gen_filter(spec, pool, 2).unwrap_or_else(|| "ssl".to_string());
     match choose_w(&[8, 2, 2, 1, 1, 1, 1], "text.kind") {
         0 => good.into_bytes(),
@@ -729,7 +755,7 @@ fn gen_text(spec: &SchemeSpec, pool: &[MValue]) -> Vec<u8> {
         }
         1 => {
             // ill-typed / unknown
-            let pool = ["http.host > 3", "tcp.port == \"x\"", "nope == 1", "ssl and", "http.host matches \"(\"", "ip.src in {1}", ""];
+            let pool = ["http.host > 3", "tcp.port == \"x\"", "nope == 1", "ssl and", "http.host matches \"(\"", "ip.src in {1}", "", "   ", "ssl and\n  nope"];
             pool[choose(pool.len(), "text.bad")].as_bytes().to_vec()
         }
         2 => {
